@@ -33,7 +33,7 @@ func verifStubProxy(p *httputil.ReverseProxy, rw http.ResponseWriter, req *http.
 			// headers into the map, forward it, then clear the header map
 			h := rw.Header()
 			h[verifInterimHeader] = append(h[verifInterimHeader], "</style.css>; rel=preload")
-			rw.WriteHeader(http.StatusEarlyHints)
+			rw.WriteHeader(verifInterimStatus())
 			for k := range h {
 				delete(h, k)
 			}
